@@ -21,6 +21,7 @@ import SkNet.Lemmas.Complete
 import SkNet.Lemmas.BreakInv
 import SkNet.Lemmas.BreakAcyclic
 import SkNet.Lemmas.BreakDirGlobal
+import SkNet.Lemmas.BreakFuel
 
 namespace SkNet.C12
 open SkNet SkNet.Connectivity SkNet.Cycles
@@ -934,6 +935,76 @@ example : IsHopDist (noLoopRows threeCycle) 3 [0] [0, 1, 2] := by
     | 0, _, hp => exact absurd hp (by decide)
     | 1, _, _ => exact ⟨0, e01, by decide⟩
     | 2, _, _ => exact ⟨1, e12, by decide⟩
+
+theorem noLoopRows_bounds (m : Mat) (hwf : WF m.nRow m.adj) :
+    (∀ u v, v ∈ (noLoopRows m).row u → v < m.nRow) ∧
+    ∀ u, ((noLoopRows m).row u).length ≤ maxOf ((List.range m.nRow).map fun i => (m.adj i).length) + m.nRow := by
+  refine ⟨fun u v hv => ?_, fun u => ?_⟩
+  · obtain ⟨hu, hmem, _⟩ := (mem_noLoopRows m u v).mp hv
+    exact hwf u hu v hmem
+  · unfold noLoopRows Rows.row
+    rw [tab_getD]
+    split
+    · rename_i hu
+      rw [(sortNat_perm _).length_eq]
+      exact Nat.le_trans (List.length_filter_le _ _) (Nat.le_trans (row_length_le_maxOf m u hu) (Nat.le_add_right _ _))
+    · simp
+
+/-- `breakCycles_terminates`: the fuel `breakFuel m` that `breakCycles` hands to its traversals always suffices
+    (provided the loop of `get_distances` itself ends, property C10, and the set order does not invent or repeat
+    members): `break_cycles` never answers "out of fuel". -/
+theorem breakCycles_terminates (ext : BreakExt) (m : Mat) (root : Option (List Nat)) (directed : Option Bool)
+    (hc : m.Canon) (hsq : m.nRow = m.nCol)
+    (hset1 : ∀ l x, x ∈ ext.setOrder l → x ∈ l) (hset3 : ∀ l, (ext.setOrder l).length ≤ l.length)
+    (hlen : ∀ d, (ext.labelsNoLoop d).length = m.nRow)
+    (hdist : ∀ rootl, distancesFrom m (noLoopRows m) rootl ≠ .ok none) :
+    breakCycles ext m root directed ≠ .ok .fuel := by
+  have hwf := Canon.wf hc hsq
+  obtain ⟨hb1, hb2⟩ := noLoopRows_bounds m hwf
+  have hfuel : breakFuel m = (maxOf ((List.range m.nRow).map fun i => (m.adj i).length) + m.nRow + 2) ^ (m.nRow + 1) := rfl
+  unfold breakCycles breakCyclesWith
+  split
+  · simp
+  · simp
+  · split
+    · simp
+    · rename_i rootl
+      split
+      · simp
+      · rename_i hroot
+        split
+        · simp
+        · -- directed
+          unfold breakDirected
+          simp only
+          split
+          · simp
+          · rename_i hnone; exact absurd hnone (hdist rootl)
+          · rename_i d _
+            have := breakLabels_terminates (n := m.nRow) ext.setOrder hset1 hset3 (ext.labelsNoLoop true) (hlen true) d
+              (maxOf ((List.range m.nRow).map fun i => (m.adj i).length) + m.nRow) (Nat.le_add_left _ _)
+              ((npUnique (ext.labelsNoLoop true)).filter fun v => (ext.labelsNoLoop true).count v > 1)
+              (noLoopRows m) hb1 hb2
+            rw [hfuel]
+            split
+            · rename_i hn; exact absurd hn this
+            · simp
+        · -- undirected
+          unfold breakUndirected
+          simp only
+          have hstarts : ∀ s ∈ rootl ++ firstNodes (ext.labelsNoLoop false), s < m.nRow := by
+            intro s hs
+            rcases List.mem_append.mp hs with h | h
+            · exact checkRoot_ok hroot s h
+            · obtain ⟨l, hl, rfl⟩ := List.mem_map.mp h
+              rw [← hlen false]
+              exact List.idxOf_lt_length_iff.mpr (mem_npUnique.mp hl)
+          have := breakStarts_terminates (n := m.nRow)
+            (maxOf ((List.range m.nRow).map fun i => (m.adj i).length) + m.nRow) _ hstarts (noLoopRows m) hb1 hb2
+          rw [hfuel]
+          split
+          · rename_i hn; exact absurd hn this
+          · simp
 
 /-- a triangle next to the root's component (the witness of finding F-C12-components): with the repaired code the
     model breaks it too -/
